@@ -59,12 +59,14 @@ type Prog struct {
 	RepoDir          string
 	Config           string // build configuration label
 	NumPkgsInClosure int
+	Normalized       int // spellings mapped to the engines' form at load time (normalize.go)
 
 	// lazily built
 	cg        *CallGraph
 	effects   map[*Func]*Effects
 	defs      map[*Func]map[types.Object][]ast.Node
 	ifaceUsed map[*types.TypeName]bool
+	synthRange map[*ast.RangeStmt]bool // range statements synthesised by normalizeAST
 }
 
 // Load type-checks ./... of dir. overlay maps absolute file names to
@@ -151,6 +153,11 @@ func Load(dir string, env []string, overlay map[string][]byte, patterns ...strin
 	for _, pk := range p.Pkgs {
 		for _, f := range pk.Syntax {
 			p.Files[f] = pk
+		}
+	}
+	p.Normalized = p.normalizeAST()
+	for _, pk := range p.Pkgs {
+		for _, f := range pk.Syntax {
 			p.indexFile(pk, f)
 		}
 	}
